@@ -806,3 +806,174 @@ func (p *Prog) asserted(body ast.Node) []assertion {
 	sort.SliceStable(out, func(i, j int) bool { return out[i].node.Pos() < out[j].node.Pos() })
 	return out
 }
+
+// ---------- path enumeration over structured, loop-free code ----------
+
+// pathCond is a branch condition with the polarity it has on the path.
+type pathCond struct {
+	e   ast.Expr
+	pos bool
+}
+
+// retPath is one acyclic path through a statement list: the conditions assumed, the statements executed (straight-line
+// ones, in order) and how the path ends.
+type retPath struct {
+	conds []pathCond
+	stmts []ast.Stmt
+	ret   *ast.ReturnStmt // nil when the path panics or falls off the end
+	end   string          // "return" | "panic" | "fall"
+}
+
+// retPaths enumerates the paths of a loop-free statement list (if / else-if chains, early returns, util.Assert, constant
+// conditions pruned, expression switches with constant cases). ok is false when the code contains a loop with a return
+// inside, a goto, a select, or more than 64 paths: the caller must then report `undecided`, never guess.
+func (p *Prog) retPaths(list []ast.Stmt) ([]retPath, bool) {
+	type st struct {
+		conds []pathCond
+		stmts []ast.Stmt
+	}
+	ok := true
+	var done []retPath
+	var run func(list []ast.Stmt, in []st) []st
+	cp := func(s st) st {
+		return st{append([]pathCond{}, s.conds...), append([]ast.Stmt{}, s.stmts...)}
+	}
+	run = func(list []ast.Stmt, open []st) []st {
+		for _, s := range list {
+			if len(open) == 0 {
+				return nil
+			}
+			if len(open)+len(done) > 64 {
+				ok = false
+				return nil
+			}
+			switch x := s.(type) {
+			case *ast.ReturnStmt:
+				for _, o := range open {
+					done = append(done, retPath{o.conds, o.stmts, x, "return"})
+				}
+				return nil
+			case *ast.BlockStmt:
+				open = run(x.List, open)
+			case *ast.IfStmt:
+				if x.Init != nil {
+					for i := range open {
+						open[i].stmts = append(open[i].stmts, x.Init)
+					}
+				}
+				var thenIn, elseIn []st
+				cv := p.constOf(x.Cond)
+				for _, o := range open {
+					if cv == nil || constant.BoolVal(cv) {
+						t := cp(o)
+						if cv == nil {
+							t.conds = append(t.conds, pathCond{x.Cond, true})
+						}
+						thenIn = append(thenIn, t)
+					}
+					if cv == nil || !constant.BoolVal(cv) {
+						e := cp(o)
+						if cv == nil {
+							e.conds = append(e.conds, pathCond{x.Cond, false})
+						}
+						elseIn = append(elseIn, e)
+					}
+				}
+				out := run(x.Body.List, thenIn)
+				switch e := x.Else.(type) {
+				case nil:
+					out = append(out, elseIn...)
+				case *ast.BlockStmt:
+					out = append(out, run(e.List, elseIn)...)
+				case *ast.IfStmt:
+					out = append(out, run([]ast.Stmt{e}, elseIn)...)
+				}
+				open = out
+			case *ast.ExprStmt:
+				if ce, isCall := x.X.(*ast.CallExpr); isCall {
+					if p.noReturn(ce) {
+						for _, o := range open {
+							o.stmts = append(o.stmts, s)
+							done = append(done, retPath{o.conds, o.stmts, nil, "panic"})
+						}
+						return nil
+					}
+					if p.calleeName(ce) == "util.Assert" && len(ce.Args) > 0 {
+						for i := range open {
+							open[i].conds = append(open[i].conds, pathCond{ce.Args[0], true})
+						}
+						continue
+					}
+				}
+				for i := range open {
+					open[i].stmts = append(open[i].stmts, s)
+				}
+			case *ast.ForStmt, *ast.RangeStmt:
+				if len(returnsOf(s)) > 0 {
+					ok = false
+					return nil
+				}
+				for i := range open {
+					open[i].stmts = append(open[i].stmts, s)
+				}
+			case *ast.SwitchStmt:
+				if x.Init != nil || x.Body == nil {
+					ok = false
+					return nil
+				}
+				var out []st
+				var negs []pathCond
+				hasDefault := false
+				var deflt *ast.CaseClause
+				for _, cs := range x.Body.List {
+					cc := cs.(*ast.CaseClause)
+					if cc.List == nil {
+						hasDefault, deflt = true, cc
+						continue
+					}
+					if len(cc.List) != 1 {
+						ok = false
+						return nil
+					}
+					var cond ast.Expr = cc.List[0]
+					if x.Tag != nil {
+						cond = &ast.BinaryExpr{X: x.Tag, Op: token.EQL, Y: cc.List[0], OpPos: cc.Pos()}
+					}
+					var in []st
+					for _, o := range open {
+						t := cp(o)
+						t.conds = append(append(t.conds, negs...), pathCond{cond, true})
+						in = append(in, t)
+					}
+					out = append(out, run(cc.Body, in)...)
+					negs = append(negs, pathCond{cond, false})
+				}
+				var in []st
+				for _, o := range open {
+					t := cp(o)
+					t.conds = append(t.conds, negs...)
+					in = append(in, t)
+				}
+				if hasDefault {
+					out = append(out, run(deflt.Body, in)...)
+				} else {
+					out = append(out, in...)
+				}
+				open = out
+			case *ast.BranchStmt, *ast.SelectStmt, *ast.LabeledStmt, *ast.GoStmt, *ast.TypeSwitchStmt:
+				ok = false
+				return nil
+			default:
+				for i := range open {
+					open[i].stmts = append(open[i].stmts, s)
+				}
+			}
+		}
+		return open
+	}
+	rest := run(list, []st{{}})
+	for _, o := range rest {
+		done = append(done, retPath{o.conds, o.stmts, nil, "fall"})
+	}
+	return done, ok
+}
